@@ -34,6 +34,15 @@ pub fn key_encrypt(plain: &[u8], rs: &RSched, ws: &WSched, fault: Option<Fault>,
     let res = kc::encrypt::key_encrypt(&mut r, &mut w, &sk(s_sk), &pk(s_pub_claimed), &pk(r_pub), esk.as_ref(), epk.as_ref(), pl.as_ref(), AsymFileFormat::V1);
     (enc_res(res), sh)
 }
+/// The two ephemeral arguments given independently (the API takes the private and the public half as separate options;
+/// with either one missing the implementation draws a fresh pair).
+#[allow(clippy::too_many_arguments)]
+pub fn key_encrypt_halves(plain: &[u8], rs: &RSched, ws: &WSched, s_sk: &[u8; 32], s_pub: &[u8; 32], r_pub: &[u8; 32], e_sk: Option<&[u8; 32]>, e_pk: Option<&[u8; 32]>, payload: Option<&[u8; 32]>) -> (EncRes, Rc<Shared>) {
+    let (mut r, mut w, sh) = pair(plain, rs, ws, None);
+    let (esk, epk) = (e_sk.map(sk), e_pk.map(pk)); let pl = payload.map(|p| PayloadKey::new(p));
+    let res = kc::encrypt::key_encrypt(&mut r, &mut w, &sk(s_sk), &pk(s_pub), &pk(r_pub), esk.as_ref(), epk.as_ref(), pl.as_ref(), AsymFileFormat::V1);
+    (enc_res(res), sh)
+}
 pub fn key_decrypt(ct: &[u8], rs: &RSched, ws: &WSched, fault: Option<Fault>, r_sk: &[u8; 32], r_pub: &[u8; 32]) -> (DecRes, Rc<Shared>) {
     let (mut r, mut w, sh) = pair(ct, rs, ws, fault);
     let res = kc::decrypt::key_decrypt(&mut r, &mut w, &sk(r_sk), &pk(r_pub), AsymFileFormat::V1);
